@@ -37,7 +37,7 @@ pub struct Thr {
     pub pending_unpark: Vec<usize>,
     pub os_id: Option<ThreadId>,
     pub last_kind: u32,
-    pub last_args: [usize; 6],
+    pub last_args: [usize; 8],
     pub lock_events: u64,
     pub park_events: u64,
     pub spin_events: u64,
@@ -55,7 +55,7 @@ impl Thr {
             pending_unpark: vec![],
             os_id: None,
             last_kind: 0,
-            last_args: [0; 6],
+            last_args: [0; 8],
             lock_events: 0,
             park_events: 0,
             spin_events: 0,
@@ -154,7 +154,7 @@ fn type_tag(args: &[usize]) -> &'static str {
     }
 }
 
-pub fn type_tag_pub(args: &[usize; 6]) -> &'static str {
+pub fn type_tag_pub(args: &[usize; 8]) -> &'static str {
     type_tag(&args[..])
 }
 
@@ -279,6 +279,13 @@ impl Exec {
             }
         }
         let mut g = self.m.lock().unwrap();
+        if g.rec_steps {
+            // the object announced by the previous BOXED hook has been allocated meanwhile
+            let a = alloc::take_last_tracked();
+            if a != 0 {
+                g.trace.push(json!({"e": "alloc", "t": tid, "o": a}));
+            }
+        }
         if g.aborted {
             // the run was abandoned (stuck): park this thread forever
             loop {
@@ -286,8 +293,8 @@ impl Exec {
             }
         }
         Self::settle(&mut g, tid);
-        let mut a6 = [0usize; 6];
-        for (i, a) in args.iter().take(6).enumerate() {
+        let mut a6 = [0usize; 8];
+        for (i, a) in args.iter().take(8).enumerate() {
             a6[i] = *a;
         }
         g.thr[tid].last_kind = kind;
@@ -335,6 +342,8 @@ impl Exec {
             let target_id = unsafe { &*(args[0] as *const std::thread::Thread) }.id();
             if let Some(target) = g.thr.iter().position(|t| t.os_id == Some(target_id)) {
                 g.thr[tid].pending_unpark.push(target);
+                a6[1] = target + 1;
+                g.thr[tid].last_args = a6;
             }
         }
 
@@ -418,7 +427,7 @@ impl Exec {
         }
     }
 
-    fn step_event(tid: usize, kind: u32, a: &[usize; 6]) -> Value {
+    fn step_event(tid: usize, kind: u32, a: &[usize; 8]) -> Value {
         match kind {
             fv::LOAD | fv::CLONE => {
                 // the value that will be read: nothing else runs before the access
@@ -452,12 +461,12 @@ impl Exec {
                     fv::word::LOCK_STATE => "ls",
                     _ => "red",
                 };
-                json!({"e": "step", "t": tid, "k": "word", "w": w, "acc": acc, "a": a[0], "ord": a[3], "x": a[4] as isize as i64, "y": a[5] as isize as i64, "cur": cur,
+                json!({"e": "step", "t": tid, "k": "word", "w": w, "acc": acc, "a": a[0], "ord": a[3], "x": a[4] as isize as i64, "y": a[5] as isize as i64, "cur": cur, "ln": a[6],
                        "ok": a[2] != fv::access::CAS || cur == a[4] as isize as i64})
             }
             fv::LOCK_PRE => json!({"e": "step", "t": tid, "k": "lock", "a": a[0]}),
             fv::PARK_PRE => json!({"e": "step", "t": tid, "k": "park"}),
-            fv::UNPARK_PRE => json!({"e": "step", "t": tid, "k": "unpark"}),
+            fv::UNPARK_PRE => json!({"e": "step", "t": tid, "k": "unpark", "u": a[1] as i64 - 1}),
             fv::SPIN => json!({"e": "step", "t": tid, "k": "spin", "s": a[0]}),
             _ => json!({"e": "step", "t": tid, "k": kind_name(kind)}),
         }
@@ -627,7 +636,7 @@ pub enum Outcome {
 /// pending event; used by scripted schedules and the probe driver.
 pub struct Pending {
     pub kind: u32,
-    pub args: [usize; 6],
+    pub args: [usize; 8],
     pub wait: Wait,
     pub steps: u64,
 }
